@@ -202,4 +202,71 @@ Proof.
     rewrite kind_of_item. destruct (lp_v2 p0); apply Z.eqb_refl.
 Qed.
 
+(* ---- a chunk placed in a file is found and read back ------------------------------------------------ *)
+Definition placed (file : bytes) (start : N) (b : bytes) : Prop :=
+  exists pre post, file = pre ++ b ++ post /\ lenN pre = start.
+
+Lemma placed_slice file start b : placed file start b -> takeN (lenN b) (dropN start file) = b.
+Proof. intros (pre & post & -> & <-). now rewrite dropN_app_exact, takeN_app_exact. Qed.
+
+Lemma bytes_eqb_refl b : bytes_eqb b b = true.
+Proof. destruct (bytes_eqb_spec b b); [reflexivity|congruence]. Qed.
+
+Definition chunk_bytes (l : lleaf) (start : N) (c : lchunk) : bytes := fst (enc_chunk compress l start c).
+
+Lemma chunk_bytes_eq l start c :
+  chunk_bytes l start c = concat (map (item_bytes compress (desc_of l) (lc_codec c)) (lc_items c)).
+Proof. unfold chunk_bytes, enc_chunk. cbn zeta. cbn [fst]. rewrite map_map, concat_tr_ok. reflexivity. Qed.
+
+Definition chunk_wf (l : lleaf) (c : lchunk) : Prop :=
+  Forall (item_wf (desc_of l)) (lc_items c) /\
+  Forall (fun it => phdr_wf (fst (enc_it (desc_of l) (lc_codec c) it)) = true) (lc_items c).
+
+Theorem scan_chunk_roundtrip strict file fstart l start c contents :
+  chunk_wf l c -> items_contents (desc_of l) None (lc_items c) = Some contents ->
+  4 <= start -> start + lenN (chunk_bytes l start c) <= fstart ->
+  placed file start (chunk_bytes l start c) ->
+  scan_chunk decompress strict file fstart (leaf_of_l l) (snd (enc_chunk compress l start c))
+  = ROk (CHere {| co_meta := chunk_meta l start c;
+                  co_pages := summaries (desc_of l) (lc_codec c) (lc_items c);
+                  co_cells := concat (map content_cells contents);
+                  co_nulls := fold_right N.add 0 (map content_nulls contents) |}).
+Proof.
+  intros [W HW] IC S4 SF PL.
+  pose proof (placed_slice _ _ _ PL) as SL. pose proof (chunk_bytes_eq l start c) as CB.
+  unfold chunk_meta. unfold chunk_bytes in *. unfold enc_chunk in *. cbn zeta in *. cbn [fst snd cc_meta cc_path] in *.
+  unfold scan_chunk. cbn [cc_path cc_meta cm_path cm_type cm_data_off cm_dict_off cm_tcs cm_codec lf_name lf_desc leaf_of_l].
+  rewrite bytes_eqb_refl. cbn [guard rbind]. rewrite Z.eqb_refl. cbn [guard rbind].
+  set (b := concat_tr (map page_bytes (map (enc_it (desc_of l) (lc_codec c)) (lc_items c)))) in *.
+  rewrite z2n_of_N. cbn [rbind].
+  destruct (match lc_items c with LDict _ _ :: _ => true | _ => false end) eqn:HD;
+    [rewrite z2n_of_N|]; cbn [rbind];
+    [match goal with |- context [N.min (start + ?x) start] => replace (N.min (start + x) start) with start by lia end
+    |rewrite N.min_id];
+    rewrite z2n_of_N; cbn [rbind];
+    (destruct (N.leb_spec 4 start) as [_|L]; [|lia]);
+    (destruct (N.leb_spec (start + lenN b) fstart) as [_|L]; [|lia]); cbn [andb guard rbind];
+    rewrite SL; rewrite CB;
+    rewrite (scan_pages_roundtrip compress decompress codec_rt strict (desc_of l) (lc_codec c) (lc_items c) _ None [] [] 0 contents W HW IC)
+      by (rewrite <- CB; lia);
+    cbn [rbind rev app]; rewrite N.add_0_l; reflexivity.
+Qed.
+
+(* the validator accepts the chunk *)
+Theorem valid_chunk_enc l start c contents rg :
+  its_shape (lc_items c) -> items_contents (desc_of l) None (lc_items c) = Some contents ->
+  rg_nrows rg = Z.of_N (sumN (map item_nvals (lc_items c))) ->
+  sumN (map (item_nulls (desc_of l)) (lc_items c)) = fold_right N.add 0 (map content_nulls contents) ->
+  valid_chunk rg (CHere {| co_meta := chunk_meta l start c;
+                           co_pages := summaries (desc_of l) (lc_codec c) (lc_items c);
+                           co_cells := concat (map content_cells contents);
+                           co_nulls := fold_right N.add 0 (map content_nulls contents) |}) = ROk tt.
+Proof.
+  intros SH IC NR NU. unfold valid_chunk. cbn [co_meta co_pages co_nulls].
+  rewrite enc_chunk_check by exact SH. cbn [guard rbind].
+  unfold chunk_meta, enc_chunk. cbn zeta. cbn [snd cc_meta cm_nvals cm_null_count cm_index_off].
+  rewrite NR, Z.eqb_refl. cbn [guard rbind].
+  destruct (lc_stats c); [rewrite NU, Z.eqb_refl|]; reflexivity.
+Qed.
+
 End WithCodecs4.
